@@ -1,4 +1,5 @@
 import Driver.AstJson
+import Platypus.Spec.OutcomeSem
 open Lean Platypus
 
 namespace DrvRun
@@ -96,6 +97,28 @@ def runModel (l : Loaded) (orderCode : Nat) (fuel : Nat := 20000) : Obs :=
   | none => { outcome := "notloaded" }
   | some (name, stmts) => obsOf (runScript (envOf l orderCode) fuel name stmts { pt := l.point })
 
+def outName : Sem.Out → String
+  | .normal => "normal" | .brk => "brk" | .cont => "cont" | .exit => "exit"
+
+/-- self-check of the refinement statement `semStmts = absU ∘ runStmts` on this case's top-level
+    block (the theorem C03.flags_refine_outcomes proves it for all programs) -/
+def semCheck (l : Loaded) (orderCode : Nat) (fuel : Nat := 20000) : Bool :=
+  match l.scripts.find? (·.1 == l.entry) with
+  | none => true
+  | some (name, stmts) =>
+    let env := envOf l orderCode
+    let s0 : St := { task := { name := name, scopes := [[]] }, world := { pt := l.point } }
+    let m := Sem.absU (runStmts env (evalNode env fuel) fuel stmts s0)
+    let sm := Sem.semStmts env (evalNode env fuel) fuel stmts s0
+    let show' (r : Res Sem.Out) : String :=
+      match r with
+      | .ok o s => s!"ok {outName o} {(pointJson s.world.heap s.world.pt).compress} {(traceJson s.world.trace).compress} {s.world.polls} {s.task.exit} {s.task.brk} {s.task.cont} {s.task.scopes.length}"
+      | .err e s => s!"err {(chainJson e).compress} {(pointJson s.world.heap s.world.pt).compress} {(traceJson s.world.trace).compress} {s.world.polls} {s.task.exit} {s.task.scopes.length}"
+      | .panic m => s!"panic {m}"
+      | .fuel => "fuel"
+      | .need q => s!"need {bstr q}"
+    show' m == show' sm
+
 def implChain (obs : Json) : Json :=
   Json.arr ((J.arr (J.get (J.get obs "err") "chain")).map fun c =>
     let a := J.arr c
@@ -140,17 +163,20 @@ def run (j : Json) : Json :=
       -- map iteration order is unspecified: accept any order of the (≤ 2) map iterations
       let (d, tried) := Id.run do
         if d0 == "" || m0.mapIters == 0 then return (d0, (1 : Nat))
-        let mut best := d0
         let mut n : Nat := 1
-        for code in [1:6 ^ (min m0.mapIters 3)] do
-          let mi := runModel l code
+        -- binary choices for up to 10 map iterations (complete for maps of ≤ 2 keys) …
+        let bits := min m0.mapIters 10
+        for c in [1:2 ^ bits] do
+          let code := (List.range bits).foldl (fun acc i => acc + ((c / 2 ^ i) % 2) * 6 ^ i) 0
           n := n + 1
-          if diff mi obs l.hasSig == "" then
-            best := ""
-            break
-        return (best, n)
+          if diff (runModel l code) obs l.hasSig == "" then return ("", n)
+        -- … then all orders of the first 4 iterations (maps of 3 keys)
+        for code in [1:6 ^ (min m0.mapIters 4)] do
+          n := n + 1
+          if diff (runModel l code) obs l.hasSig == "" then return ("", n)
+        return (d0, n)
       let agree := d == ""
       J.obj [("id", J.get j "id"), ("agree", agree), ("spec", specGeneric && (agree || !strict)),
-             ("note", d), ("orders", tried), ("moutcome", m0.outcome)]
+             ("note", d), ("orders", tried), ("moutcome", m0.outcome), ("semok", semCheck l 0)]
 
 end DrvRun
